@@ -54,9 +54,7 @@ def handleRingVerify (q : Nat) (ring : List Nat) (hb : Option Nat) (c0 : Nat) (s
     (tag : Option Nat) (t : SigOracleTable) : String :=
   let H := sigOracleFn q t
   let sig : RingSig.Sig := ⟨c0, s, tag⟩
-  let link : RingSig.Link := match hb, tag with
-    | some b, some tg => some (b, tg)
-    | _, _ => none
+  let link : RingSig.Link := RingSig.linkOf hb tag
   if s.length = ring.length ∧ hb.isSome = tag.isSome ∧ !sigAllIn t (RingSig.queries q H link c0 (s.zip ring)) then "oracle-miss"
   else if RingSig.verify q H ring hb sig then "ok" else "reject"
 
